@@ -90,6 +90,7 @@ def run(chk):
     retention(chk, repo)
     fold_limit(chk, repo)
     body_error_rules(chk, repo)
+    message_text_rule(chk, repo)
 
     # ---- C10.limits (= C03.rp, rp2, rp3) -------------------------------------------------------------------
     hp = repo.func(MOD, "HttpParser.feed_data")
@@ -268,3 +269,37 @@ def body_error_rules(chk, repo):
         else:
             chk.violation("C10.swallow", tests[0] if tests else h, K.short(tests[0].test if tests else h, 70), "re-raise every BadHttpMessage except ContentEncodingError",
                           "limit violations inside a chunked body (over-long chunk-size line or extension, over-long trailer field, too many trailers) are stored on the body stream and swallowed: the rest of the read is dropped, the body parser forgotten, and the next read - bytes the sender put *inside* the body - is parsed as a new request")
+
+
+
+REPR_CLASSES = {"BadStatusLine", "BadHttpMethod", "InvalidHeader", "LineTooLong"}  # format their argument with !r: surrogates are escaped
+
+
+def message_text_rule(chk, repo, rule="C10.errtext"):
+    """The message of a parse error becomes the text of the 400 response, which is encoded as UTF-8.  Wire bytes decoded with
+    `surrogateescape` contain lone surrogates that UTF-8 refuses: such text may reach an error message only through a class that formats it
+    with repr(); otherwise the server raises UnicodeEncodeError while building the 400 and the peer gets no answer at all."""
+    mod = repo.module(MOD)
+    n = 0
+    for fn in [f for c in mod.classes.values() for f in c.methods.values()] + list(mod.functions.values()):
+        defs = norm.fn_defs(fn.node).defs
+        for call in prog.calls_in(fn.node):
+            cname = norm.raw(call.func)
+            if not (cname.endswith("Error") or cname in ("BadHttpMessage", "BadStatusLine", "BadHttpMethod", "InvalidHeader", "LineTooLong")) or "." in cname:
+                continue
+            for a in list(call.args) + [k.value for k in call.keywords]:
+                exprs = [a] + [v for x in ast.walk(a) if isinstance(x, ast.Name) for _d, v in defs.get(x.id, []) if v is not None]
+                se = [d for e in exprs for d in ast.walk(e) if isinstance(d, ast.Call) and isinstance(d.func, ast.Attribute) and d.func.attr == "decode"
+                      and any(isinstance(x, ast.Constant) and x.value == "surrogateescape" for x in list(d.args) + [k.value for k in d.keywords])]
+                if not se:
+                    continue
+                n += 1
+                neutralised = any(isinstance(x, ast.Attribute) and x.attr == "decode" and isinstance(x.value, ast.Call) and isinstance(x.value.func, ast.Attribute) and x.value.func.attr == "encode" for e in exprs for x in ast.walk(e))
+                # text that passed the token gate is pure ASCII (C01.lex.name decides TOKENRE == tchar+)
+                gated = any(isinstance(x, ast.Name) and PC.has_lit(PC.pc(call, raw=True), f"TOKENRE.fullmatch({x.id})", True) is not None for x in ast.walk(a))
+                if cname in REPR_CLASSES or neutralised or gated:
+                    chk.ok(rule, call, f"{fn.name}(): surrogate-escaped wire text reaches {cname} only through repr() / a latin-1 re-decoding")
+                else:
+                    chk.violation(rule, call, K.short(call, 70), "decode(..., 'backslashreplace') or a class that formats its argument with !r",
+                                  f"{fn.name}(): {cname} takes its message verbatim and gets text decoded with `surrogateescape`: a non-ASCII byte in the offending line (chunk-size line `\\xffzz`) puts a lone surrogate into the message, building the 400 response raises UnicodeEncodeError, and the peer gets no response at all")
+    chk.expect_count(rule, n, 3, "error messages built from surrogate-escaped wire text")
